@@ -59,8 +59,10 @@ package font
 //@   requires segsSorted(s)
 //@   ensures [beyond-bmp] implies(uint32(r) > 0xffff, !result1 && result0 == 0)
 //@   ensures [found-delta] implies(uint32(r) <= 0xffff, forall(k, 0, len(s), implies(s[k].start <= uint16(r) && uint16(r) <= s[k].end && s[k].indexes == nil, result1 && result0 == GID(uint16(r)+s[k].delta))))
-//@   ensures [found-index] implies(uint32(r) <= 0xffff, forall(k, 0, len(s), implies(s[k].start <= uint16(r) && uint16(r) <= s[k].end && s[k].indexes != nil,
-//@     | ite(s[k].indexes[int(uint16(r)-s[k].start)] == 0, !result1 && result0 == 0, result1 && result0 == GID(uint16(s[k].indexes[int(uint16(r)-s[k].start)])+s[k].delta)))))
+//@   ensures [found-index] implies(uint32(r) <= 0xffff, forall(k, 0, len(s), implies(s[k].start <= uint16(r) && uint16(r) <= s[k].end && s[k].indexes != nil && s[k].indexes[int(uint16(r)-s[k].start)] != 0,
+//@     | result1 && result0 == GID(uint16(s[k].indexes[int(uint16(r)-s[k].start)])+s[k].delta))))
+//@   ensures [missing-glyph] implies(uint32(r) <= 0xffff, forall(k, 0, len(s), implies(s[k].start <= uint16(r) && uint16(r) <= s[k].end && s[k].indexes != nil && s[k].indexes[int(uint16(r)-s[k].start)] == 0,
+//@     | !result1 && result0 == 0)))
 //@   ensures [absent] implies(uint32(r) <= 0xffff && forall(k, 0, len(s), !(s[k].start <= uint16(r) && uint16(r) <= s[k].end)), !result1 && result0 == 0)
 //@   modifies nothing
 //@   loop 1 invariant [bounds] 0 <= i && i <= j && j <= len(s) && c == uint16(r) && uint32(r) <= 0xffff
